@@ -24,7 +24,7 @@ RULE = ("case = one reset/step of an ICG_Gym_Linear built by ModelInstance(linea
         ">= 2 unknown coalitions of the requested size.")
 SHARDS = {"quick": 4, "thorough": 16}
 BUDGET = {"quick": 40, "thorough": 360}
-REQUIRED = ["steps_checked", "resets_checked", "mask_checks", "episodes_to_done"]
+REQUIRED = ["steps_checked", "resets_checked", "mask_checks", "episodes_to_done", "steps_on_arbitrary_hidden_games", "steps_without_mask_query"]
 
 GENS = ["factory", "noisy_factory", "factory_cheerleader_next", "graph_cycle", "graph_random", "xos", "xs", "oxs",
         "k_budget_generator", "noisy_factory_square", "covg_fn_generator", "graph_internet"]
@@ -147,9 +147,61 @@ def episode(ctx, case) -> None:
                               "observation": np.array(ret[0]).tolist()} if steps == 2 and ep == 0 else None))
 
 
+def arbitrary_episode(ctx, case) -> None:
+    """The wrapper's contract is relative to the underlying env: hidden games of ANY kind (values outside [0,1] after
+    normalisation, negative graph weights) must be aggregated the same way.  Several wrappers are built up front and
+    played in reverse order (class-level state shared between instances would show)."""
+    import random as pyrandom
+    from incomplete_cooperative.coalitions import minimal_game_coalitions
+    from incomplete_cooperative.game import IncompleteCooperativeGame
+    from incomplete_cooperative.icg_gym import ICG_Gym
+    from incomplete_cooperative.icg_gym_linear import ICG_Gym_Linear
+    from incomplete_cooperative.bounds import BOUNDS
+    rng = pyrandom.Random(case["np_seed"])
+    np.random.seed(case["np_seed"] % (2**32))
+    envs = []
+    try:
+        for n in case["ns"]:
+            vals = [0.0] + [rng.uniform(-3, 5) for _ in range((1 << n) - 1)]
+            hidden = IncompleteCooperativeGame(n)
+            hidden.set_values(np.array(vals))
+            inc = IncompleteCooperativeGame(n, BOUNDS["superadditive_cached"])
+            envs.append((n, ICG_Gym_Linear(ICG_Gym(inc, (lambda h=hidden: h.copy()), minimal_game_coalitions(inc), GAP_FUNCTIONS["l1_norm"]))))
+        ctx.count("wrappers_alive_together", len(envs))
+        for n, lin in reversed(envs):
+            explor = gen.explorable(n)
+            obs, _ = lin.reset()
+            observe(ctx, case, lin, n, explor, "arbitrary game, after reset", obs)
+            while True:
+                mask = np.array(lin.action_masks(), dtype=bool)
+                if not mask.any() or lin.done:
+                    break
+                k = rng.choice([int(i) for i in np.nonzero(mask)[0]])
+                before = np.array(lin.icg_gym.incomplete_game.are_values_known(), dtype=bool)
+                cands = [m for m in explor if popcount(m) == k and not before[m]]
+                ret = lin.step(k)
+                after = np.array(lin.icg_gym.incomplete_game.are_values_known(), dtype=bool)
+                new = [int(m) for m in np.nonzero(after & ~before)[0]]
+                ctx.count("steps_checked")
+                ctx.count("steps_on_arbitrary_hidden_games")
+                if len(new) != 1 or new[0] not in cands:
+                    ctx.violation("step-not-one-new-coalition-of-size", f"arbitrary game: step({k}) newly known {new}, candidates {cands} (n={n})", case)
+                    return
+                observe(ctx, case, lin, n, explor, f"arbitrary game, after step({k})", ret[0])
+                ctx.case(("arb", case["np_seed"], n, tuple(np.nonzero(before)[0].tolist()), k), len(cands) >= 2)
+    except Exception as exc:
+        ctx.violation("step-raised", f"arbitrary hidden games / several wrappers alive: {type(exc).__name__}: {exc} (ns={case['ns']})", case)
+
+
 def run(ctx) -> None:
     rng = ctx.rng
+    i_arb = 0
     while not ctx.out_of_time(1.5):
+        i_arb += 1
+        if i_arb % 8 == 0:
+            ns = [rng.choice([3, 4, 5, 6]) for _ in range(rng.randint(2, 4))]
+            arbitrary_episode(ctx, {"kind": "arbitrary", "ns": ns, "np_seed": rng.randint(0, 2**31 - 1)})
+            continue
         n = rng.choice([3, 4, 4, 5, 5, 6])
         g = rng.choice(GENS)
         comp = rng.choice(list(sut.SA_COMPUTERS) + (["sam_apx_1"] if g in ("xos", "xs", "oxs", "k_budget_generator", "covg_fn_generator") else []))
@@ -163,4 +215,7 @@ def run(ctx) -> None:
 
 
 def replay(ctx, case) -> None:
+    if case.get("kind") == "arbitrary":
+        arbitrary_episode(ctx, case)
+        return
     episode(ctx, {k: v for k, v in case.items() if k != "failed_after_steps"})
